@@ -20,7 +20,7 @@
 		ok
 	}
 
-	/// @ob cidr.v4_prefix @props C02 @kind forall @tier quick @replay cidr4 @fns rcgen::CidrSubnet::from_v4_prefix
+	/// @ob cidr.v4_prefix @props C02,C10 @kind forall @tier quick @replay cidr4 @fns rcgen::CidrSubnet::from_v4_prefix
 	/// @bound "all 2^32 addresses x all 256 prefix lengths"
 	#[kani::proof_for_contract(CidrSubnet::from_v4_prefix)]
 	#[kani::unwind(34)]
@@ -31,7 +31,7 @@
 		let _ = CidrSubnet::from_v4_prefix(a, p);
 	}
 
-	/// @ob cidr.v6_prefix @props C02 @kind forall @tier quick @replay cidr6 @fns rcgen::CidrSubnet::from_v6_prefix
+	/// @ob cidr.v6_prefix @props C02,C10 @kind forall @tier quick @replay cidr6 @fns rcgen::CidrSubnet::from_v6_prefix
 	/// @bound "all 2^128 addresses x all 256 prefix lengths"
 	#[kani::proof_for_contract(CidrSubnet::from_v6_prefix)]
 	#[kani::unwind(130)]
@@ -42,7 +42,7 @@
 		let _ = CidrSubnet::from_v6_prefix(a, p);
 	}
 
-	/// @ob cidr.from_addr_prefix @props C02 @kind forall @tier quick @replay cidr4 @fns rcgen::CidrSubnet::from_addr_prefix
+	/// @ob cidr.from_addr_prefix @props C02,C10 @kind forall @tier quick @replay cidr4 @fns rcgen::CidrSubnet::from_addr_prefix
 	#[kani::proof]
 	#[kani::unwind(34)]
 	fn cidr_from_addr_prefix_v4() {
@@ -96,7 +96,7 @@
 		true
 	}
 
-	/// @ob eku.oid_table @props C02 @kind forall @tier quick @fns rcgen::ExtendedKeyUsagePurpose::oid
+	/// @ob eku.oid_table @props C02,C07 @kind forall @tier quick @fns rcgen::ExtendedKeyUsagePurpose::oid
 	#[kani::proof]
 	#[kani::unwind(12)]
 	fn eku_oid_table() {
@@ -118,7 +118,7 @@
 		t.to_oid().components().to_vec()
 	}
 
-	/// @ob dntype.oid_table @props C02,C17,C20 @kind forall @tier quick @fns rcgen::DnType::to_oid,rcgen::DnType::from_oid
+	/// @ob dntype.oid_table @props C02,C03,C07,C08,C17,C20 @kind forall @tier quick @fns rcgen::DnType::to_oid,rcgen::DnType::from_oid
 	#[kani::proof]
 	#[kani::unwind(8)]
 	fn dntype_oid_table() {
@@ -142,7 +142,7 @@
 		assert!(DnType::from_oid(&[2, 5, 4, 11]) == DnType::OrganizationalUnitName);
 	}
 
-	/// @ob dntype.from_oid_total @props C17,C20 @kind forall @tier quick @bound "every 4-arc OID" @fns rcgen::DnType::from_oid
+	/// @ob dntype.from_oid_total @props C03,C06,C07,C10,C17,C20 @kind forall @tier quick @bound "every 4-arc OID" @fns rcgen::DnType::from_oid
 	#[kani::proof]
 	#[kani::unwind(8)]
 	fn dntype_from_oid_roundtrip() {
@@ -174,7 +174,7 @@
 		core::mem::forget(c);
 	}
 
-	/// @ob custom_ext.constructors @props C02,C04 @kind forall @tier quick @bound "3-arc OID, 4 content bytes, 32-byte digest" @fns rcgen::CustomExtension::from_oid_content,rcgen::CustomExtension::new_acme_identifier,rcgen::CustomExtension::set_criticality
+	/// @ob custom_ext.constructors @props C02,C04,C07 @kind forall @tier quick @bound "3-arc OID, 4 content bytes, 32-byte digest" @fns rcgen::CustomExtension::from_oid_content,rcgen::CustomExtension::new_acme_identifier,rcgen::CustomExtension::set_criticality
 	#[kani::proof]
 	#[kani::unwind(40)]
 	fn custom_ext_constructors() {
@@ -237,7 +237,7 @@
 		}
 	}
 
-	/// @ob ku.extension_value @props C02,C04 @kind forall @tier quick @timeout 900 @replay key_usage9
+	/// @ob ku.extension_value @props C02,C04,C07 @kind forall @tier quick @timeout 900 @replay key_usage9
 	/// @bound "a list of 9 symbolic usages (duplicates allowed): every one of the 511 non-empty usage sets; bit-string writer replaced by its contract" @fns rcgen::CertificateParams::write_key_usage
 	#[kani::proof]
 	#[kani::unwind(24)]
@@ -298,7 +298,7 @@
 		assert!(der[4] == b[1] & (0xffu16 << unused) as u8, "padding bits are zero");
 	}
 
-	/// @ob ku.empty_omitted @props C02,C05 @kind forall @tier quick @fns rcgen::CertificateParams::write_key_usage
+	/// @ob ku.empty_omitted @props C02,C05,C07 @kind forall @tier quick @fns rcgen::CertificateParams::write_key_usage
 	#[kani::proof]
 	#[kani::unwind(4)]
 	#[kani::stub(std::hash::RandomState::new, fixed_random_state)]
